@@ -204,6 +204,11 @@ def run(ctx):
         texts.append(rng0.choice(['\ufeff', '\ufeff\ufeff', '\xa0', '\ufeff\n', ' \ufeff ', '\t\x0b\x0c']) + t)
     for ch in ('\x0b', '\x0c', '\x1c', '\x1d', '\x1e', '\x85', '\xa0', '\u2003'):
         texts += ['/* a%sb */ x = 1;\ny = 2;' % ch, "s = 'a%sb'; y = s;\nz = 1;" % ch, '// c%sd\nw = 1;\nv = 2;' % ch]
+    # the lexer accepts raw line terminators inside a regular-expression literal (finding KF-03f): such a token spans lines
+    # like a block comment does, and everything after it must still be counted right (direct and back-tracked lexing paths)
+    for lt in ('\n', '\r', '\r\n', '\u2028', '\u2029'):
+        texts += ['x = /[%s]/g;\ny = 2; z = 3;' % lt, 'x = /a%sb/; z;\nw;' % lt, '{}\n/a%sb/.test(c);\nq;' % lt,
+                  'a++\n/%s/.exec(b); r;' % lt]
     # S2b tie
     if getattr(ctx, 'drivers_ok', True):
         parsetie.parse_tie(ctx, texts[:ctx.n(150, 1200)])
